@@ -426,6 +426,17 @@ def check(prop, tier, seed, only=None, only_bin=None):
         violations.append((path, ""))
         if len(seen_groups) >= 8: break
 
+    # ---- 4b. how informative were the cases?  (a generator that only produces all-null results cannot tell a
+    # correct implementation from a wrong one — measured per function tag and recorded in the evidence)
+    info = collections.defaultdict(lambda: [0, 0])
+    for c in all_cases:
+        if "nt=0" in c["tags"].split(): continue
+        g = re.search(r"(?:fn|kind|op)=(\S+)", c["tags"])
+        g = g.group(1) if g else "(all)"
+        info[g][0] += 1
+        if not any(t in (0, 1) for t in c["impl"][0::3]): info[g][1] += 1
+    uninformative = {g: round(b / a, 3) for g, (a, b) in sorted(info.items()) if a and b / a > 0.5}
+    informative = {g: a - b for g, (a, b) in sorted(info.items())}
     # ---- 5. evidence ---------------------------------------------------------------------
     samples = [dict(case=c["desc"][:400], comparator=c["cmp"]) for c in all_cases[:: max(1, len(all_cases) // 5)][:5]]
     cov.update(evaluations=compared, distinct_nontrivial=len(nontrivial),
@@ -434,6 +445,8 @@ def check(prop, tier, seed, only=None, only_bin=None):
                input_distribution=histogram(all_cases),
                distinct_model_terms=len(model), mismatches=len(mismatches),
                known_finding_hits={str(k): v for k, v in known_hit.items()},
+               share_of_cases_without_any_numeric_output_cell_where_above_half=uninformative,
+               cases_with_a_numeric_output_cell_per_function=informative,
                aborts=len(all_aborts))
     ev["assumptions"] = PROPS.ASSUMPTIONS_COMMON + cfg.get("assumptions", [])
     ev["violations"] = len(violations)
